@@ -43,6 +43,7 @@ func dominatingConds(b *ssa.BasicBlock) []domCond {
 			}
 			if okPreds {
 				out = append(out, domCond{iff.Cond, si == 0, p})
+				out = append(out, expandShortCircuit(iff.Cond, si == 0, p, 0)...)
 			}
 		}
 	}
@@ -247,4 +248,41 @@ func impliesLT(cond ssa.Value, outcome bool, a, b ssa.Value) bool {
 		return (bo.Op == token.GTR && outcome) || (bo.Op == token.LEQ && !outcome)
 	}
 	return false
+}
+
+// expandShortCircuit: a condition kept in a variable (`ok := a && b; if ok`) is a phi of the constant false (edges
+// on which an earlier operand failed) and the last operand; the phi being true means every operand was true, in
+// particular the last one and the ones the constant edges branched on. Dually for `||` and false.
+func expandShortCircuit(cond ssa.Value, outcome bool, at *ssa.BasicBlock, depth int) []domCond {
+	ph, ok := cond.(*ssa.Phi)
+	if !ok || depth > 3 {
+		return nil
+	}
+	var out []domCond
+	for i, e := range ph.Edges {
+		if k, isK := e.(*ssa.Const); isK && k.Value != nil && k.Value.Kind() == constant.Bool {
+			if constant.BoolVal(k.Value) == outcome {
+				return nil // the phi can have this outcome through a constant edge: nothing follows
+			}
+			// the edge was not taken: the branch that leads to it had the other outcome
+			pred := ph.Block().Preds[i]
+			if iff, isIf := pred.Instrs[len(pred.Instrs)-1].(*ssa.If); isIf && len(pred.Succs) == 2 {
+				// pred jumps to the phi block on one of its edges; the phi value for that edge is the constant
+				if pred.Succs[0] == ph.Block() && pred.Succs[1] != ph.Block() {
+					out = append(out, domCond{iff.Cond, false, at})
+					out = append(out, expandShortCircuit(iff.Cond, false, at, depth+1)...)
+				} else if pred.Succs[1] == ph.Block() && pred.Succs[0] != ph.Block() {
+					out = append(out, domCond{iff.Cond, true, at})
+					out = append(out, expandShortCircuit(iff.Cond, true, at, depth+1)...)
+				}
+			}
+			continue
+		}
+		if b, isBool := e.Type().Underlying().(*types.Basic); !isBool || b.Kind() != types.Bool {
+			return nil
+		}
+		out = append(out, domCond{e, outcome, at})
+		out = append(out, expandShortCircuit(e, outcome, at, depth+1)...)
+	}
+	return out
 }
